@@ -854,8 +854,8 @@ func c19RunMsg(r *rand.Rand, c c19MsgCase) (o c19MsgOut, in, out string) {
 		o.Cls = c19Cls(m2, derr)
 		if derr == nil {
 			final = c19ViewOfMsg(m2)
-			if b, err := jsonrpc.EncodeMessage(m2); err == nil && out == "" {
-				out = c19Trunc(b)
+			if b, err := jsonrpc.EncodeMessage(m2); err == nil {
+				out = "decoded, shown re-encoded: " + c19Trunc(b)
 			}
 		} else {
 			out += " decode: " + derr.Error()
